@@ -576,4 +576,151 @@ theorem c_resendFixMsgIn (b : SState) (s : Sess) (stash : List (Int × InMsg)) (
   · rw [if_neg hl, if_neg hl, c_sharedStash b s' nx stash h', c_resendBook b s' nx _ cur fin m h']
 
 
+
+/-! ## no handler chooses a pending state -/
+
+def SState.isPending : SState → Bool
+  | .pendingIn | .pendingResend .. => true
+  | _ => false
+
+macro "np_cases" : tactic => `(tactic| (
+  (repeat' split)
+  all_goals (try dsimp only)
+  all_goals (repeat' split)
+  all_goals (try dsimp only)
+  all_goals (repeat' split)
+  all_goals first | rfl | assumption))
+
+theorem np_doTargetTooLow (s : Sess) (m : InMsg) : (doTargetTooLow s m).2.isPending = false := by
+  unfold doTargetTooLow
+  np_cases
+
+theorem np_processReject (s : Sess) (m : InMsg) (r : Rej) : (processReject s m r).2.isPending = false := by
+  cases r with
+  | tooHigh a b => simp only [processReject]; np_cases
+  | tooLow a b => exact np_doTargetTooLow s m
+  | badBeginString => rfl
+  | rejectLogon => rfl
+  | plain a b c => simp only [processReject]; np_cases
+
+theorem np_handleLogout (s : Sess) (m : InMsg) : (handleLogout s m).2.isPending = false := by
+  unfold handleLogout
+  generalize verifySelect s m false false true = r
+  obtain ⟨s', o⟩ := r
+  cases o with
+  | some r => exact np_processReject s' m r
+  | none => dsimp only; np_cases
+
+theorem np_handleTestRequest (s : Sess) (m : InMsg) : (handleTestRequest s m).2.isPending = false := by
+  unfold handleTestRequest
+  generalize verifySelect s m true true true = r
+  obtain ⟨s', o⟩ := r
+  cases o with
+  | some r => exact np_processReject s' m r
+  | none => rfl
+
+theorem np_handleSequenceReset (s : Sess) (m : InMsg) : (handleSequenceReset s m).2.isPending = false := by
+  unfold handleSequenceReset
+  split
+  · exact np_processReject s m _
+  · dsimp only
+    generalize verifySelect s m _ _ true = r
+    obtain ⟨s', o⟩ := r
+    cases o with
+    | some r => exact np_processReject s' m r
+    | none => dsimp only; np_cases
+
+theorem np_handleResendRequest (s : Sess) (m : InMsg) : (handleResendRequest s m).2.isPending = false := by
+  unfold handleResendRequest
+  generalize verifySelect s m false false true = r
+  obtain ⟨s', o⟩ := r
+  cases o with
+  | some r => exact np_processReject s' m r
+  | none =>
+    dsimp only
+    repeat' split
+    all_goals (try dsimp only)
+    all_goals first | rfl | exact np_processReject _ _ _
+
+theorem np_inSessionFixMsgIn (s : Sess) (m : InMsg) : (inSessionFixMsgIn s m).2.isPending = false := by
+  unfold inSessionFixMsgIn
+  dsimp only
+  split
+  · split <;> rfl
+  · split
+    · exact np_handleLogout s m
+    · split
+      · exact np_handleResendRequest s m
+      · split
+        · exact np_handleSequenceReset s m
+        · split
+          · exact np_handleTestRequest s m
+          · generalize verifySelect s m true true true = r
+            obtain ⟨s', o⟩ := r
+            cases o with
+            | some r => exact np_processReject s' m r
+            | none => rfl
+
+theorem np_drainStash (fuel : Nat) (s : Sess) (stash : List (Int × InMsg)) (last : SState) (h : last.isPending = false) :
+    (drainStash fuel s stash last).2.1.isPending = false := by
+  induction fuel generalizing s stash last with
+  | zero => exact h
+  | succ n ih =>
+    unfold drainStash
+    split
+    · exact h
+    · rename_i nn mm _
+      have := np_inSessionFixMsgIn s mm
+      generalize inSessionFixMsgIn s mm = r at this
+      obtain ⟨s', nx⟩ := r
+      dsimp only at this ⊢
+      split
+      · exact this
+      · exact ih _ _ _ this
+
+theorem np_drainPart (s : Sess) (nx : SState) (stash : List (Int × InMsg)) (h : nx.isPending = false) :
+    (drainPart s nx stash).2.isPending = false := by
+  unfold drainPart
+  have := np_drainStash (stash.length + 1) s stash nx h
+  generalize drainStash (stash.length + 1) s stash nx = r at this
+  obtain ⟨a, b, c⟩ := r
+  dsimp only at this ⊢
+  cases b <;> first | rfl | exact this
+
+theorem np_resendFixMsgIn (s : Sess) (stash : List (Int × InMsg)) (cur fin : Int) (m : InMsg) :
+    (resendFixMsgIn s stash cur fin m).2.isPending = false := by
+  rw [resendFixMsgIn_eq]
+  have hin := np_inSessionFixMsgIn s m
+  generalize inSessionFixMsgIn s m = r at hin
+  obtain ⟨s', nx⟩ := r
+  dsimp only at hin ⊢
+  split
+  · exact hin
+  · have hb := resendBook_out s' nx (sharedStash s' nx stash) cur fin m
+    generalize resendBook s' nx (sharedStash s' nx stash) cur fin m = out at hb
+    cases hb with
+    | chunk _ _ => rfl
+    | garbled _ => rfl
+    | stay _ _ => rfl
+    | drain _ _ => exact np_drainPart s' nx _ hin
+
+theorem np_logonFixMsgIn (s : Sess) (m : InMsg) : (logonFixMsgIn s m).2.isPending = false := by
+  unfold logonFixMsgIn shutdownWithReason
+  np_cases
+
+theorem np_fixMsgInCore (s : Sess) (m : InMsg) : (fixMsgInCore s m).2.isPending = false := by
+  unfold fixMsgInCore
+  split
+  · rfl
+  · rfl
+  · exact np_logonFixMsgIn s m
+  · generalize inSessionFixMsgIn s m = r
+    obtain ⟨s', nx⟩ := r
+    dsimp only
+    split <;> rfl
+  · exact np_inSessionFixMsgIn s m
+  · exact np_inSessionFixMsgIn s m
+  · exact np_resendFixMsgIn _ _ _ _ _
+  · exact np_resendFixMsgIn _ _ _ _ _
+
 end Qfx.Sess
